@@ -1,70 +1,2 @@
-(* GENERATED by translators/t_parloops.py from the current sources -- do not edit.
-   One descriptor per LIVE `#pragma omp parallel for` (defines: OPENMEEG_VERIF OPENMP_ITERATOR OPENMP_RANGEFOR OPENMP_UNSIGNED USE_OMP USE_PROGRESSBAR).
-   Dead under these defines: OpenMEEG/include/gain.h:33, OpenMEEG/include/gain.h:43 *)
-From OM Require Import Base.Lists Geom.ParLoops.
-Local Open Scope Z_scope.
-
-Notation acts := (map (@Act _ _)) (only parsing).
-
-(* OpenMEEG/include/operators.h:88  BlocksBase::D  [range-for]  for (constauto&triangle1:triangles1) *)
-Definition loop_operators_h_BlocksBase_D (F E : Type) (fadd : F -> F -> F) (f0 : F) (triangles1 : list tri) (triangles2 : list tri) (c_mat : nat) (a_mat : Z -> Z -> Z) (val0 : tri -> tri -> Z -> list F -> F) (exn : tri -> option (nat * E)) : region F E :=
-  {| r_its := map (fun triangle1 : tri => throw_at F E (exn triangle1)
-        ((flat_map (fun triangle2 : tri => (flat_map (fun i : Z => acts (accum F fadd f0 [] (c_mat, a_mat (t_index triangle1) (t_vertex triangle2 i)) (val0 triangle1 triangle2 i))) [0; 1; 2])) triangles2))) triangles1;
-     r_wrapped := true; r_rethrow := true |}.
-
-(* OpenMEEG/include/operators.h:219  DiagonalBlock::S  [iterator]  for (Triangles::const_iteratortit2=tit1;tit2!=triangles.end();++tit2)  inside for (Triangles::const_iteratortit1=triangles.begin();tit1!=triangles.end();++tit1,++pb) *)
-Definition loop_operators_h_DiagonalBlock_S (F E : Type) (fadd : F -> F -> F) (f0 : F) (mesh_triangles : list tri) (pos_tit1 : nat) (c_matrix : nat) (a_matrix : Z -> Z -> Z) (val0 : tri -> list F -> F) (exn : tri -> option (nat * E)) : region F E :=
-  {| r_its := map (fun triangle2 : tri => throw_at F E (exn triangle2)
-        (acts (assign F [] (c_matrix, a_matrix (t_index (nth pos_tit1 mesh_triangles dtri)) (t_index triangle2)) (val0 triangle2)))) (skipn pos_tit1 mesh_triangles);
-     r_wrapped := true; r_rethrow := true |}.
-
-(* OpenMEEG/include/operators.h:278  DiagonalBlock::N  [iterator]  for (autovit2=vit1;vit2<mesh.vertices().end();++vit2)  inside for (autovit1=mesh.vertices().begin();vit1!=mesh.vertices().end();++vit1) *)
-Definition loop_operators_h_DiagonalBlock_N (F E : Type) (fadd : F -> F -> F) (f0 : F) (mesh_vertices : list Z) (pos_vit1 : nat) (c_matrix : nat) (a_matrix : Z -> Z -> Z) (adj_mesh : Z -> list tri) (c_S : nat) (a_S : Z -> Z -> Z) (val0 : Z -> list F -> F) (exn : Z -> option (nat * E)) : region F E :=
-  {| r_its := map (fun vit2 : Z => throw_at F E (exn vit2)
-        (acts (accum F fadd f0 (flat_map (fun tp1 : tri => map (fun tp2 : tri => (c_S, a_S (t_index tp1) (t_index tp2))) (adj_mesh vit2)) (adj_mesh (nth pos_vit1 mesh_vertices 0))) (c_matrix, a_matrix (nth pos_vit1 mesh_vertices 0) vit2) (val0 vit2)))) (skipn pos_vit1 mesh_vertices);
-     r_wrapped := true; r_rethrow := true |}.
-
-(* OpenMEEG/include/operators.h:404  NonDiagonalBlock::S  [range-for]  for (constauto&triangle2:m2_triangles)  inside for (constauto&triangle1:mesh1.triangles()) *)
-Definition loop_operators_h_NonDiagonalBlock_S (F E : Type) (fadd : F -> F -> F) (f0 : F) (mesh1_triangles : list tri) (triangle1 : tri) (mesh2_triangles : list tri) (c_matrix : nat) (a_matrix : Z -> Z -> Z) (val0 : tri -> list F -> F) (exn : tri -> option (nat * E)) : region F E :=
-  {| r_its := map (fun triangle2 : tri => throw_at F E (exn triangle2)
-        (acts (assign F [] (c_matrix, a_matrix (t_index triangle1) (t_index triangle2)) (val0 triangle2)))) mesh2_triangles;
-     r_wrapped := true; r_rethrow := true |}.
-
-(* OpenMEEG/include/operators.h:459  NonDiagonalBlock::N  [range-for]  for (constauto&vertex2:m2_vertices)  inside for (constauto&vertex1:mesh1.vertices()) *)
-Definition loop_operators_h_NonDiagonalBlock_N (F E : Type) (fadd : F -> F -> F) (f0 : F) (mesh1_vertices : list Z) (vertex1 : Z) (mesh2_vertices : list Z) (c_matrix : nat) (a_matrix : Z -> Z -> Z) (adj_mesh1 : Z -> list tri) (adj_mesh2 : Z -> list tri) (c_S : nat) (a_S : Z -> Z -> Z) (val0 : Z -> list F -> F) (exn : Z -> option (nat * E)) : region F E :=
-  {| r_its := map (fun vertex2 : Z => throw_at F E (exn vertex2)
-        (acts (accum F fadd f0 (flat_map (fun tp1 : tri => map (fun tp2 : tri => (c_S, a_S (t_index tp1) (t_index tp2))) (adj_mesh2 vertex2)) (adj_mesh1 vertex1)) (c_matrix, a_matrix vertex1 vertex2) (val0 vertex2)))) mesh2_vertices;
-     r_wrapped := true; r_rethrow := true |}.
-
-(* OpenMEEG/src/assembleHeadMat.cpp:45  deflate  [iterator]  for (autovit2=vit1;vit2<vertices.end();++vit2)  inside for (autovit1=vertices.begin();vit1!=vertices.end();++vit1)  inside for (constauto&meshptr:part)  inside for (constauto&part:geo.isolated_parts()) *)
-Definition loop_assembleHeadMat_cpp_deflate (F E : Type) (fadd : F -> F -> F) (f0 : F) (meshptr_vertices : list Z) (pos_vit1 : nat) (c_M : nat) (a_M : Z -> Z -> Z) (val0 : Z -> list F -> F) (exn : Z -> option (nat * E)) : region F E :=
-  {| r_its := map (fun vit2 : Z => throw_at F E (exn vit2)
-        (acts (accum F fadd f0 [] (c_M, a_M (nth pos_vit1 meshptr_vertices 0) vit2) (val0 vit2)))) (skipn pos_vit1 meshptr_vertices);
-     r_wrapped := true; r_rethrow := true |}.
-
-(* OpenMEEG/src/operators.cpp:17  operatorFerguson  [range-for]  for (constauto&vertexp:m.vertices()) *)
-Definition loop_operators_cpp_operatorFerguson (F E : Type) (fadd : F -> F -> F) (f0 : F) (m_vertices : list Z) (c_mat : nat) (offsetI : Z) (nlin_mat : Z) (val0 : Z -> list F -> F) (val1 : Z -> list F -> F) (val2 : Z -> list F -> F) (exn : Z -> option (nat * E)) : region F E :=
-  {| r_its := map (fun vertexp : Z => throw_at F E (exn vertexp)
-        ((acts (accum F fadd f0 [] (c_mat, cmidx nlin_mat (offsetI + 0) vertexp) (val0 vertexp)) ++ acts (accum F fadd f0 [] (c_mat, cmidx nlin_mat (offsetI + 1) vertexp) (val1 vertexp)) ++ acts (accum F fadd f0 [] (c_mat, cmidx nlin_mat (offsetI + 2) vertexp) (val2 vertexp))))) m_vertices;
-     r_wrapped := true; r_rethrow := true |}.
-
-(* OpenMEEG/src/operators.cpp:40  operatorDipolePotDer  [range-for]  for (constauto&triangle:m.triangles()) *)
-Definition loop_operators_cpp_operatorDipolePotDer (F E : Type) (fadd : F -> F -> F) (f0 : F) (m_triangles : list tri) (c_rhs : nat) (val0 : tri -> Z -> list F -> F) (exn : tri -> option (nat * E)) : region F E :=
-  {| r_its := map (fun triangle : tri => throw_at F E (exn triangle)
-        ([Crit (flat_map (fun j : Z => (accum F fadd f0 [] (c_rhs, vidx (t_vertex triangle j)) (val0 triangle j))) [0; 1; 2])])) m_triangles;
-     r_wrapped := true; r_rethrow := true |}.
-
-(* OpenMEEG/src/operators.cpp:71  operatorDipolePot  [range-for]  for (constauto&triangle:m.triangles()) *)
-Definition loop_operators_cpp_operatorDipolePot (F E : Type) (fadd : F -> F -> F) (f0 : F) (m_triangles : list tri) (c_rhs : nat) (val0 : tri -> list F -> F) (exn : tri -> option (nat * E)) : region F E :=
-  {| r_its := map (fun triangle : tri => throw_at F E (exn triangle)
-        (acts (accum F fadd f0 [] (c_rhs, vidx (t_index triangle)) (val0 triangle)))) m_triangles;
-     r_wrapped := true; r_rethrow := true |}.
-
-Definition gen_region_names : list (nat * Z) := [(0%nat, 88); (1%nat, 219); (2%nat, 278); (3%nat, 404); (4%nat, 459); (5%nat, 45); (6%nat, 17); (7%nat, 40); (8%nat, 71)].   (* (ordinal, source line) *)
-Definition gen_region_count : nat := 9.
-Definition gen_dead_pragmas : nat := 2.
-Definition gen_progressbar_empty : bool := true.
-Definition gen_te_capture_locked : bool := true.
-Definition gen_te_capture_stores : bool := true.
-Definition gen_te_run_catches_all : bool := true.
-Definition gen_te_rethrow_rethrows : bool := true.
+(* GENERATED: the configuration the suite is built with (g++). *)
+From OM Require Export Gen.GenParLoops_gcc.
